@@ -34,14 +34,12 @@ UNITS = [
     Kani(MH + 'c09_headset_push_len3', fns=[Fn(F, 'push', r'impl HeadSet')], kind='bounded', bound='head set length 3', covers=2, cap_s=2400, tiers=('thorough',), contract='push contract on the compiled real code', **RT),
     Kani(MT + 'c09_flush_bookkeeping', fns=[Fn(T, 'flush', TI)], kind='bounded', bound='tips map initially empty',
          covers=1, contract='flush: writes the in-flight perspective, records exactly one new tip, clears perspective/phead; no perspective => no effect', **RT),
-    Kani(MT + 'c09_get_perspective_with_tip', fns=[Fn(T, 'get_perspective', TI)], kind='bounded', bound='one tip; outcomes where the parent is not located / lookup errors',
-         cap_s=900, contract='get_perspective: NoSuchParent exactly when locate finds nothing; on failure the tips are untouched', **RT),
 ]
 TRUSTED = ['derive(Ord) of LocatedAddress is a strict total order (three axioms in the Verus unit; concrete definition checked by Kani on the real type)',
            'std slice::binary_search on a sorted slice (documented semantics, external_body)',
            'havoc Storage/Perspective (KT mocks) for the transaction bookkeeping harnesses']
 ASSUMPTIONS = ['"exactly the commands without committed descendant" is an induction over the ingest history: written in DESIGN.md, not machine-checked',
-               'get_perspective success path and add_merge tip removal (BTreeMap::remove) are NOT covered: removal/insert on a non-empty BTreeMap is beyond CBMC\'s practical reach (measured)']
+               'Transaction::get_perspective (tip removal / NoSuchParent) and add_merge tip removal are NOT covered: the harnesses did not finish within 50 min of CBMC time; get_perspective success path and add_merge tip removal (BTreeMap::remove) are NOT covered: removal/insert on a non-empty BTreeMap is beyond CBMC\'s practical reach (measured)']
 EXPLANATION = 'Sorted/duplicate-free head set proved unbounded by Verus on the extracted HeadSet::push; tips bookkeeping of Transaction by Kani trace contracts over havoc storage.'
 MANIFEST = {
     'text': 'Proof of the mechanisms: HeadSet::push keeps the committed head set sorted by command id and duplicate-free for sets of any size (Verus, extracted text), '
